@@ -30,7 +30,7 @@ RULE = ("cells = dataset variant x reader x calculate_divisions x (projection, p
 ASSUMPTIONS = ["pandas predicate semantics on the fully read frame"]
 CONFIG = {
     "quick": {"budget_s": 55, "preds_per_cell": 40, "case_timeout_s": 120},
-    "thorough": {"budget_s": 600, "preds_per_cell": 10**6, "case_timeout_s": 600},
+    "thorough": {"budget_s": 480, "preds_per_cell": 1000, "case_timeout_s": 600},
 }
 DATASETS = ["one_file_unnamed", "three_named", "five_unsorted", "nine_files", "nulls", "with_empty_file", "string_index", "rotated3", "rotated4", "rotated5"]
 # datasets whose file-name order is a (non-involutive) permutation of their index order: file i holds index block ROTATIONS[ds][i]
